@@ -7,7 +7,13 @@ ASSUMPTIONS = ["histories are executed against the real runtime.guarded()/add_gu
                "and the identity of the objects) with the one before the region, whether it ended normally or by an exception",
                "exceptions are raised explicitly at any statement and by traced operations whose values are invalid; they are caught "
                "at any enclosing level by try/except BaseException",
-               "the statement-based block API (_if/_while/...) is represented by bare add_guard/restore_guard pairs",
+               "the statement-based block API (_if/_while/...) is represented by bare add_guard/restore_guard pairs in the modelled history "
+               "language; in addition the REAL block API (_if/_elif/_else/_endif, _while/_endwhile, _range/_endfor over a BranchingValues "
+               "context, rendered as Python source by harness/worker_blockguard.py) is driven with histories whose closing or switching "
+               "call raises one of the library's own bookkeeping errors (a name first assigned in only one branch / in a later branch or "
+               "iteration only / in an if without else / in a loop body), the caller catches it and goes on; oracle on the real code only "
+               "(no model counterpart): the guard triple after the caught error is the one from before the block (values and object "
+               "identity), and a later false assertion at a live level is still rejected",
                "every guarded() region of a history is ONE decorator object guarded(cond) decorating ONE function; re-entry events activate "
                "that same decorator object again while it is active, either by recursion of the decorated function (R) or by decorating a "
                "callee with the same decorator object (RS), to any depth, around any other event (raises, failing operations, try/except, "
@@ -105,6 +111,147 @@ def reentrant_family():
     return out
 
 
+# ---------------------------------------------------------------- block API: the closing call itself raises
+def _cond(rnd, v=None):
+    v = rnd.choice([0, 1]) if v is None else v
+    if rnd.random() < 0.7:
+        return ["B", v]
+    a = rnd.randrange(0, 6)
+    return ["C", a, a + 1 + rnd.randrange(0, 3)] if v else ["C", a + rnd.randrange(0, 3), a]
+
+
+def _sets(rnd, names, loop=None):
+    out = []
+    for nm in names:
+        if loop is not None and nm != "z" :
+            out.append(["setk", nm, rnd.randrange(0, 9), loop])
+        else:
+            out.append(["set", nm, rnd.randrange(0, 9)])
+    rnd.shuffle(out)
+    return out
+
+
+def gen_block(rnd, flavour):
+    """one block whose closing / switching call may raise a bookkeeping error; `z` exists before the block, `y`, `q` do not.
+    flavour: 'bookkeeping' (names assigned inconsistently), 'consistent' (no error), 'body-raise' (user code raises inside the
+    open block: the recorded finding C08-block-unwind, kept to show that the two are told apart)"""
+    form = rnd.choice(["if", "if", "if", "while", "for"])
+    def body_extra():
+        if flavour == "body-raise":
+            return [rnd.choice([["raise"], ["raise"], ["assert_eq", 5, 7]])]
+        return []
+    if form == "if":
+        narms = rnd.choice([1, 1, 2, 3]); has_else = rnd.random() < 0.7
+        nb = narms + (1 if has_else else 0)
+        if flavour == "bookkeeping":
+            # a new name assigned in some branches but not in all of them (or only in a later one), or without an else
+            new = rnd.choice(["y", "q"])
+            pat = [rnd.random() < 0.5 for _ in range(nb)]
+            if all(pat) and has_else: pat[rnd.randrange(nb)] = False
+            if not any(pat): pat[rnd.randrange(nb)] = True
+        else:
+            new = "y"; allset = rnd.random() < 0.5 and has_else
+            pat = [allset] * nb
+        bodies = []
+        for k in range(nb):
+            names = (["z"] if rnd.random() < 0.6 else []) + ([new] if pat[k] else [])
+            bodies.append(_sets(rnd, names))
+        bodies[rnd.randrange(nb)] += body_extra()
+        arms = [[_cond(rnd), bodies[k]] for k in range(narms)]
+        return ["if", arms, bodies[narms] if has_else else None], form
+    iters = rnd.choice([1, 2, 2, 3])
+    names = ["z"] if rnd.random() < 0.8 else []
+    body = _sets(rnd, names)
+    if flavour == "bookkeeping":
+        body += [["setk", rnd.choice(["y", "q"]), rnd.randrange(0, 9), rnd.randrange(0, iters)]]
+    body += body_extra()
+    if form == "while":
+        return ["while", _cond(rnd), iters, body], form
+    if rnd.random() < 0.5:
+        return ["for", iters, None, body], form
+    return ["for", ["S", rnd.randrange(1, iters + 1)], iters, body], form
+
+
+def gen_block_history(rnd):
+    flavour = rnd.choice(["bookkeeping"] * 6 + ["consistent"] * 2 + ["body-raise"])
+    blk, form = gen_block(rnd, flavour)
+    inner = [["try", [blk]], ["later"], ["set", "z", 3]]
+    if rnd.random() < 0.3:
+        b2, _ = gen_block(rnd, "consistent")
+        inner.append(["try", [b2]])
+    live = True
+    wrap = rnd.choice(["none", "none", "guarded", "if", "else", "while", "guarded2"])
+    if wrap == "none":
+        prog = inner
+    elif wrap in ("guarded", "guarded2"):
+        v = rnd.choice([0, 1, 1]); live = v == 1
+        prog = [["guarded", _cond(rnd, v), inner]]
+        if wrap == "guarded2":
+            v2 = rnd.choice([0, 1, 1]); live = live and v2 == 1
+            prog = [["guarded", _cond(rnd, v2), prog]]
+    elif wrap == "if":
+        v = rnd.choice([0, 1, 1]); live = v == 1
+        prog = [["if", [[_cond(rnd, v), inner]], [["set", "z", 1]]]]
+    elif wrap == "else":
+        v = rnd.choice([0, 0, 1]); live = v == 0
+        prog = [["if", [[_cond(rnd, v), [["set", "z", 1]]]], inner]]
+    else:
+        v = rnd.choice([0, 1, 1]); live = v == 1
+        prog = [["while", _cond(rnd, v), 1, inner]]
+    prog = [["set", "z", rnd.randrange(0, 9)]] + prog + [["try", [["assert_eq", 5, 7]]], ["assert_eq", 4, 4]]
+    return prog, {"flavour": flavour, "form": form, "wrap": wrap, "live": live}
+
+
+ERRCLASS = [("did not set value", "did-not-set"), ("spurious value", "spurious"), ("and no else branch", "no-else"),
+            ("conditional write to undefined", "undefined-write")]
+
+
+def block_histories(ctx, ex, extended):
+    """block-API histories whose closing / switching call raises; oracle on the real code only"""
+    import json
+    rnd = ctx.rnd
+    n = ctx.n(500, 8000) * (3 if extended else 1)
+    jobs = [gen_block_history(rnd) for _ in range(n)]
+    lines = [f"BG|bg{i}|p={common.BN128},bl=8|" + json.dumps(prog) for i, (prog, _) in enumerate(jobs)]
+    outs = common.run_workers(lines, script="worker_blockguard.py", nproc=4)
+    for line, (prog, meta), o in zip(lines, jobs, outs):
+        f = o.split("|", 7)
+        if len(f) < 8 or f[1] == "harness-error":
+            raise common.Infra("worker_blockguard: " + o[:400])
+        ex.evaluations += 1
+        rep = json.loads(f[7])
+        ex.count(f"block:{meta['form']}:{meta['flavour']}:wrap-{meta['wrap']}")
+        first_bad = None
+        for pr in rep["probes"]:
+            err = next((c for k, c in ERRCLASS if pr["exc"] and k in pr["exc"]), "none" if not pr["exc"] else "other")
+            ex.count(f"block-probe:{pr['tag']}:{err}:{'restored' if pr['restored'] else 'NOT-restored'}")
+            if pr["tag"] == "closing-call":
+                ex.distinct.add(("block", meta["form"], meta["wrap"], pr["call"], err, json.dumps(prog)))
+            if not pr["restored"] and first_bad is None:
+                first_bad = (pr, err)
+        payload = {"line": line, "source": rep["source"], "probes": rep["probes"], "later": rep["later"]}
+        if first_bad:
+            pr, err = first_bad
+            what = (f"block API: after {pr['call'] or 'user code'} raised {pr['exc']!r} and the caller caught it, the guard triple is "
+                    f"{pr['after']} (before the try: {pr['before']}){' (same values, different objects)' if pr['objects_differ_only'] else ''}")
+            if pr["tag"] == "open-region":
+                # an exception propagating out of an OPEN block: the recorded finding (same signature as the bare-pair histories)
+                ex.violations.append(Violation({"clause": "restore-final", "via": "raw", "api": "block-statements", "raised_by": "body"}, what, payload))
+            else:
+                ex.violations.append(Violation({"clause": "restore", "via": "block-closing-call" if pr["tag"] == "closing-call" else "block-" + pr["tag"],
+                                                "call": pr["call"], "error": err}, what, payload))
+            continue        # everything after the first unrestored probe runs in a polluted state
+        if meta["live"] and rep["later"] and rep["later"][0] != "rejected":
+            ex.violations.append(Violation({"clause": "later-assertion", "via": "block-closing-call"},
+                                           "block API: after the caught error a false assertion PrivVal(5).assert_eq(7) at a live level is accepted", payload))
+        if not (f[2] == "G=N" and f[3] == "IGN=0"):
+            ex.violations.append(Violation({"clause": "restore-final", "via": "block-closing-call", "status": f[1].split(":")[0]},
+                                           f"block API: the history ends with status {f[1]} and guard state {f[2]} {f[3]}", payload))
+        if len(ex.samples) < 10 and meta["flavour"] == "bookkeeping" and any(p_["tag"] == "closing-call" for p_ in rep["probes"]) \
+                and not any(s_.startswith("BG|") for s_ in ex.samples):
+            ex.samples.append(line)
+
+
 def explore(ctx, extended=False, focus=None):
     ex = Exploration()
     ex.rule = ("random trees of events (guarded() regions with conditions of kind secret-int / secret-bool / int and values 0/1 and "
@@ -190,10 +337,19 @@ def explore(ctx, extended=False, focus=None):
                                            f"after the whole history the guard state is {fa[2]} {fa[3]}", {"line": line}))
         if md >= 2 and (len(ex.samples) < 3 or (len(ex.samples) < 8 and int(fa[0][1:]) >= len(fixed))):
             ex.samples.append(line.split("|", 2)[2])
+    block_histories(ctx, ex, extended)
     return ex
 
 
 def replay(ctx, payload):
+    if payload["replay"]["line"].startswith("BG|"):
+        import json
+        o = common.run_workers([payload["replay"]["line"]], script="worker_blockguard.py", nproc=1)[0]
+        f = o.split("|", 7)
+        print("|".join(f[:7]))
+        if len(f) > 7:
+            rep = json.loads(f[7]); print(rep.pop("source")); print(json.dumps(rep, indent=1))
+        return 0
     w = common.Worker("snarkjs", "worker_guard.py")
     try:
         print(w.run([payload["replay"]["line"]])[0])
